@@ -433,8 +433,8 @@ func TestVerifRouterReplay(t *testing.T) {
 		t.Fatal(err)
 	}
 	defer admin.Close()
-	verifGateFunc = vlG.gate
-	defer func() { verifGateFunc = nil; vrGate = nil }()
+	VerifGate = vlG.gate
+	defer func() { VerifGate = nil; vrGate = nil }()
 	n, aborted := 0, 0
 	for sc.Scan() {
 		var s vlSched
